@@ -7,6 +7,7 @@ import (
 	"go/ast"
 	"go/token"
 	"go/types"
+	"golang.org/x/tools/go/cfg"
 	"sort"
 	"strings"
 )
@@ -140,6 +141,8 @@ func runC20(c *Ctx, r *Rec) {
 		for _, fd := range c.allFuncDecls("module") {
 			checkSelfFill(c, r, info, fd, qr)
 		}
+		// the class constructors the universal constructor delegates to
+		checkBornWithValues(c, r, "D2-born-with-values", qr)
 	}
 
 	// ---- D3 / D5 per constructor
@@ -270,6 +273,55 @@ func checkCtorSkeleton(c *Ctx, r *Rec, info *types.Info, fd *ast.FuncDecl, kind 
 			}
 			return true
 		})
+		// a comma-ok assertion straight into the variable that collects a kind assigns the zero
+		// value when the argument is of another kind: every later argument that walks past this
+		// arm wipes what an earlier argument stored
+		{
+			var lbody *ast.BlockStmt
+			switch l := argLoop.(type) {
+			case *ast.RangeStmt:
+				lbody = l.Body
+			case *ast.ForStmt:
+				lbody = l.Body
+			}
+			if lbody != nil {
+				var lg *FG
+				ast.Inspect(lbody, func(y ast.Node) bool {
+					as, ok := y.(*ast.AssignStmt)
+					if !ok || as.Tok != token.ASSIGN || len(as.Lhs) != 2 || len(as.Rhs) != 1 {
+						return true
+					}
+					if _, isTA := ast.Unparen(as.Rhs[0]).(*ast.TypeAssertExpr); !isTA {
+						return true
+					}
+					lo := identObj(info, as.Lhs[0])
+					okObj := identObj(info, as.Lhs[1])
+					if lo == nil || okObj == nil || !(kindVars[lo] || lo == notation) || (lo.Pos() >= lbody.Pos() && lo.Pos() < lbody.End()) {
+						return true
+					}
+					if lg == nil {
+						lg = newFG(info, lbody)
+					}
+					pt, ok := lg.after(as)
+					if !ok {
+						return true
+					}
+					// does the round go on without a failure when the assertion did not hold?
+					goesOn, _ := lg.exists(pathQuery{from: pt,
+						edgeOK: func(cond ast.Expr, polarity bool) bool {
+							if id, ok := ast.Unparen(cond).(*ast.Ident); ok && info.Uses[id] == okObj {
+								return !polarity
+							}
+							return true
+						},
+						goalExit: func(kind int, b *cfg.Block) bool { return kind != exitPanic }})
+					if goesOn {
+						viol = append(viol, fmt.Sprintf("the comma-ok assertion at %s assigns straight into %s, which collects one kind of argument over all rounds of the loop: for an argument of another kind it stores the zero value, so what an earlier argument put there is wiped by every later argument that walks past this arm", c.pos(as.Pos()), lo.Name()))
+					}
+					return true
+				})
+			}
+		}
 		// an argument that was recognised and stored does not go on to the failure for unknown
 		// argument types in the same round of the loop (an arm of an if-chain that lost its continue)
 		{
